@@ -712,7 +712,7 @@ func storeTypes(cfg world.InstCfg) []string {
 var versionSiblings = map[string][]string{
 	"V0": {"V1", "V2"}, "V1": {"V0", "V2"}, "V2": {"V0", "V1", "Wide"},
 	"Wide": {"V2", "Maps"}, "Inner": {"Small", "KeyS"}, "Sym": {"SymTwin", "Inner"}, "SymTwin": {"Sym"},
-	"Maps": {"Wide", "JDoc"}, "JDoc": {"Maps", "V1"}, "Node": {"Tree", "RA"}, "Tree": {"Node"},
+	"Maps": {"Wide", "JDoc"}, "JDoc": {"Maps", "V1", "JArr"}, "JArr": {"JDoc", "JNest"}, "JNest": {"JDoc", "Maps"}, "[]any": {"[]string", "map[string]any"}, "map[string]any": {"MapSI", "[]any"}, "Node": {"Tree", "RA"}, "Tree": {"Node"},
 	"MTarget": {"Wide"}, "RA": {"RB"}, "RB": {"RC"}, "RC": {"RA"}, "Small": {"Inner", "KeyS"},
 	"MapKS": {"MapKV", "MapSI"}, "MapKV": {"MapKS"}, "MapSI": {"MapKS", "[]string"},
 	"[]string": {"[][]byte", "[]Inner"}, "[]int": {"[]float64", "MyBytes"}, "[]float64": {"[]int"},
@@ -799,7 +799,7 @@ func (s *StoreSim) StoreRecord(seed uint64, idx int, thorough bool) (*Violation,
 	if prev == nil {
 		prev = rec
 	}
-	EnumerateFaults(rec, rec2, thorough, func(f fault) bool {
+	handle := func(f fault) bool {
 		s.St.ByFault[f.kind]++
 		for _, rd := range readers {
 			c := &StoreCase{Type: tn, Reader: rd.ti.Name, Mode: rd.mode, Cfg: cfg, Fault: f.desc, Input: hex.EncodeToString(f.data), Prev: hex.EncodeToString(prev), Original: hex.EncodeToString(rec)}
@@ -809,7 +809,11 @@ func (s *StoreSim) StoreRecord(seed uint64, idx int, thorough bool) (*Violation,
 			}
 		}
 		return true
-	})
+	}
+	EnumerateFaults(rec, rec2, thorough, handle)
+	if viol == nil {
+		EnumerateStructFaults(rec, thorough, handle)
+	}
 	if viol != nil {
 		return viol, vcase
 	}
